@@ -420,6 +420,7 @@ async fn scenario(run: u64, seed: u64, feats: Value, mix: &str) -> Vec<Value> {
         },
     };
     let (aref, jh) = rsactor::spawn_with_mailbox_capacity::<T>(cfg, cap);
+    let probe = ActorRef::downgrade(&aref);
     register_id(aref.identity().id, &name);
     emit(run, json!({"e": "Spawn", "a": name, "cap": cap, "id": aref.identity().id, "h": 0}));
     let ctx = Arc::new(RunCtx { run, t0: Instant::now(), next_op: AtomicU64::new(1), next_m: AtomicU64::new(1),
@@ -509,7 +510,9 @@ async fn scenario(run: u64, seed: u64, feats: Value, mix: &str) -> Vec<Value> {
         tokio::time::sleep(Duration::from_millis(5)).await;
     }
     let pending: Vec<u64> = ctx.pending.lock().unwrap().iter().cloned().collect();
-    emit(run, json!({"e": "Quiescent", "pending": pending, "unjoined": unjoined, "wf": [], "now": ctx.now_ceil()}));
+    let (dmax, davail, dstrong, dclosed) = probe.__verif_counts();
+    emit(run, json!({"e": "Quiescent", "pending": pending, "unjoined": unjoined, "wf": [], "now": ctx.now_ceil(),
+                     "diag": {"max": dmax, "avail": davail, "strong": dstrong, "closed": dclosed}}));
     take_run(run)
 }
 
@@ -616,4 +619,90 @@ impl tracing::Subscriber for StressCapture {
     }
     fn enter(&self, _s: &tracing::span::Id) {}
     fn exit(&self, _s: &tracing::span::Id) {}
+}
+
+/// Targeted teardown stress (C03 / finding F2): askers race the end of the actor task.
+/// Uses the same event vocabulary; only iterations in which something is left pending (plus a
+/// 1-in-`sample` sample of the others) are written out.
+pub fn run_teardown(iters: u64, seed: u64, out: &str, feats: Value, sample: u64) -> (u64, u64, u64) {
+    USE_TICKETS.store(true, Ordering::SeqCst);
+    let rt = tokio::runtime::Builder::new_multi_thread().worker_threads(12).enable_time().build().unwrap();
+    let mut o = std::io::BufWriter::new(std::fs::File::create(out).unwrap());
+    use std::io::Write;
+    let mut written = 0u64;
+    let mut hung_runs = 0u64;
+    let mut asks = 0u64;
+    rt.block_on(async {
+        let mut rng = StdRng::seed_from_u64(seed);
+        for run in 1..=iters {
+            let name = format!("s{run}");
+            emit(run, json!({"e": "Reset", "run": run, "feats": feats, "strict": false, "seed": seed}));
+            let way = rng.random_range(0..5);
+            let cap = *[1usize, 2, 32].get(rng.random_range(0..3)).unwrap();
+            let cfg = TCfg { run, name: name.clone(), start: if way == 0 { "err" } else { "ok" }, stop: "ok",
+                             panic_on: if way == 1 { 1 } else { 0 },
+                             run_script: if way == 2 { vec!["err"] } else { vec!["false"] } };
+            let (aref, jh) = rsactor::spawn_with_mailbox_capacity::<T>(cfg, cap);
+            let probe = ActorRef::downgrade(&aref);
+            register_id(aref.identity().id, &name);
+            emit(run, json!({"e": "Spawn", "a": name, "cap": cap, "id": aref.identity().id, "h": 0}));
+            let ctx = Arc::new(RunCtx { run, t0: Instant::now(), next_op: AtomicU64::new(1), next_m: AtomicU64::new(1),
+                                        pending: Mutex::new(BTreeSet::new()), target: name.clone() });
+            let mut tasks = Vec::new();
+            let n_ask = 6u32;
+            for c in 0..n_ask {
+                let (ctx2, r2) = (ctx.clone(), aref.clone());
+                let spin = rng.random_range(0..400);
+                tasks.push(tokio::spawn(async move {
+                    for _ in 0..spin { std::hint::spin_loop(); }
+                    let spec = OpSpec { api: "ask", d: 0, work: 0, erased: false };
+                    with_k!(c, do_async_boxed, ctx2, r2, format!("c{c}"), spec).await;
+                }));
+            }
+            asks += n_ask as u64;
+            {
+                let (ctx2, r2) = (ctx.clone(), aref.clone());
+                let spin = rng.random_range(0..600);
+                tasks.push(tokio::spawn(async move {
+                    for _ in 0..spin { std::hint::spin_loop(); }
+                    match way {
+                        3 => do_async::<47>(ctx2, r2, "ctl".into(), OpSpec { api: "kill", d: 0, work: 0, erased: false }).await,
+                        4 => do_async::<47>(ctx2, r2, "ctl".into(), OpSpec { api: "stop", d: 0, work: 0, erased: false }).await,
+                        _ => {}
+                    }
+                }));
+            }
+            drop(aref);
+            let mut unjoined = vec![];
+            match tokio::time::timeout(Duration::from_millis(2000), jh).await {
+                Ok(r) => joined_event(run, &name, r),
+                Err(_) => unjoined.push(name.clone()),
+            }
+            // every ask must return soon after the actor has ended
+            let deadline = Instant::now() + Duration::from_millis(400);
+            for t in tasks {
+                let left = deadline.saturating_duration_since(Instant::now());
+                let _ = tokio::time::timeout(left, t).await;
+            }
+            let pending: Vec<u64> = ctx.pending.lock().unwrap().iter().cloned().collect();
+            let (dmax, davail, dstrong, dclosed) = probe.__verif_counts();
+            emit(run, json!({"e": "Quiescent", "pending": pending, "unjoined": unjoined, "wf": [], "now": ctx.now_ceil(),
+                             "diag": {"max": dmax, "avail": davail, "strong": dstrong, "closed": dclosed}}));
+            let evs = take_run(run);
+            let interesting = !pending.is_empty() || !unjoined.is_empty();
+            if interesting {
+                hung_runs += 1;
+            }
+            if interesting || run % sample.max(1) == 0 {
+                written += 1;
+                for e in &evs {
+                    serde_json::to_writer(&mut o, e).unwrap();
+                    o.write_all(b"\n").unwrap();
+                }
+            }
+        }
+    });
+    o.flush().unwrap();
+    rt.shutdown_timeout(Duration::from_millis(200));
+    (asks, hung_runs, written)
 }
